@@ -202,6 +202,9 @@ pub fn finish(run: &Run, level_states: u64, level_transitions: u64, rule: &str, 
     let unstored = total - stored;
     let fams = run.families.lock().unwrap();
     let all_completed = fams.iter().all(|f| f.completed);
+    for e in crate::util::ESCAPED.lock().unwrap().iter().take(5) {
+        run.machinery_error(format!("panic escaped a worker: {e}"));
+    }
     let merr = run.machinery_errors.lock().unwrap().clone();
     let samples = run.samples.lock().unwrap().clone();
     let distinct = run.distinct.lock().unwrap().len() as u64;
